@@ -6,13 +6,16 @@ require (
 	github.com/anishathalye/porcupine v1.3.0
 	github.com/dapr/kit v0.0.0
 	github.com/lestrrat-go/jwx/v2 v2.0.21
+	github.com/spiffe/go-spiffe/v2 v2.1.7
 	golang.org/x/crypto v0.24.0
+	k8s.io/apimachinery v0.26.9
 	k8s.io/utils v0.0.0-20230726121419-3b25d923346b
 	pgregory.net/rapid v1.3.0
 )
 
 require (
 	github.com/alphadose/haxmap v1.3.1 // indirect
+	github.com/fsnotify/fsnotify v1.7.0 // indirect
 	github.com/gogo/protobuf v1.3.2 // indirect
 	github.com/lestrrat-go/blackmagic v1.0.2 // indirect
 	github.com/lestrrat-go/httpcc v1.0.1 // indirect
@@ -23,10 +26,10 @@ require (
 	github.com/sirupsen/logrus v1.9.3 // indirect
 	github.com/spf13/cast v1.5.1 // indirect
 	github.com/tidwall/transform v0.0.0-20201103190739-32f242e2dbde // indirect
+	github.com/zeebo/errs v1.3.0 // indirect
 	golang.org/x/exp v0.0.0-20231006140011-7918f672742d // indirect
 	golang.org/x/sys v0.21.0 // indirect
 	gopkg.in/inf.v0 v0.9.1 // indirect
-	k8s.io/apimachinery v0.26.9 // indirect
 )
 
 replace github.com/dapr/kit => /repo
